@@ -101,18 +101,20 @@ def namesAgreeDomain (jar : Jar) (ns : Nests) : Bool :=
   (tableNames ns ++ (classesOf jar).map (·.name)).all cleanName && observable ns
 
 /-- `oracle-nest-jar-spec`: `filter_spec`, `attrs_spec`, `created_enclosing_partial`, `nothing_else` evaluated on one input.
-`none` = outside the domain (cyclic table or jar without classes). -/
+`none` = outside the domain (jar without classes). -/
 def nestJarSpecHolds (jar : Jar) (ns : Nests) : Option Bool :=
-  if (mapTable ns).isNone then none
-  else
-    match minVersion (classesOf jar) with
-    | none => none
-    | some v =>
+  match minVersion (classesOf jar) with
+  | none => none
+  | some v =>
+    let kept := keptSpec jar ns
+    let created := createdSpec jar ns
+    if (mapTable kept).isNone then
+      -- the applied nests form a cycle: an error is the specified answer (`cyclic_err`)
+      some (match nestJar false jar ns with | .error _ => true | .ok _ => false)
+    else
       match nestJar false jar ns with
       | .error _ => some false
       | .ok out =>
-        let kept := keptSpec jar ns
-        let created := createdSpec jar ns
         let srcKeys := jar.map (·.1)
         some (jar.all (fun e => AList.lookup e.1 out == some (emitEntry kept e.2)) &&
           created.all (fun name => srcKeys.contains (name ++ DOT_CLASS) ||
@@ -147,20 +149,35 @@ def mapNestsSpecHolds (ns : Nests) (m : Mappings) : Option Bool :=
 /-- `oracle-remap-names`: what the property asks of `nest_jar(remap = true)` on names (`remap_names_partial`, and
 `<new name>.class` for synthesised classes, which is where the code deviates) -/
 def remapNamesHolds (jar : Jar) (ns : Nests) : Option Bool :=
-  if (mapTable ns).isNone || (minVersion (classesOf jar)).isNone then none
+  if (minVersion (classesOf jar)).isNone then none
   else
     let kept := keptSpec jar ns
     let created := createdSpec jar ns
     match mapTable kept with
-    | none => none
+    | none => some (match nestJar true jar ns with | .error _ => true | .ok _ => false)
     | some t =>
       let f := tableMap t
-      let want := created.map (fun name => (f name ++ DOT_CLASS, some (f name))) ++ jar.map (renamedView f)
+      let want := created.map (createdView f) ++ jar.map (renamedView f)
       if !decide (want.map (·.1)).Nodup then none
       else
         match nestJar true jar ns with
         | .ok out => some (out.map nameView == want)
         | .error _ => some false
+
+/-- following enclosing classes from some nest never leaves the table (the harness's own notion of a cyclic table) -/
+def chainCyclic (ns : Nests) : Bool :=
+  let rec walk : Nat → JStr → Bool
+    | 0, _ => true
+    | k + 1, c => match get ns c with | some e => walk k e.enclClass | none => false
+  ns.any (fun n => walk (ns.length + 1) n.enclClass)
+
+/-- `oracle-cyclic-err`: `cyclic_err` / `acyclic_iff_mapTable` evaluated on one table: cyclic tables are errors for nesting
+and un-nesting mappings, acyclic ones are not -/
+def cyclicErrHolds (ns : Nests) : Option Bool :=
+  let applyErr := match applyNests emptyMappings ns with | .error _ => true | .ok _ => false
+  let undoErr := match undoNests emptyMappings ns with | .error _ => true | .ok _ => false
+  if chainCyclic ns then some (applyErr && undoErr && (mapTable ns).isNone)
+  else some (!undoErr && (mapTable ns).isSome)
 
 /-- `oracle-read-spec`: `read_spec` evaluated on one text -/
 def readSpecHolds (text : List Nat) : Option Bool :=
@@ -183,18 +200,17 @@ def handleC14 (op : String) (args : List Sexp) : Option Ans :=
     pure (match read t with | some ns => .ok (nestsTo ns) | none => .err "e")
   | "nest-jar", [r, ns, jar] => do
     let r ← toBool? r; let ns ← nestsFrom ns; let jar ← jarFrom jar
-    pure (if (mapTable ns).isNone then .skip "cyclic" else exceptAns jarTo (nestJar r jar ns))
+    pure (exceptAns jarTo (nestJar r jar ns))
   | "nest-name-jar", [ns, jar, c] => do
     let ns ← nestsFrom ns; let jar ← jarFrom jar; let c ← toJStr? c
-    pure (if (mapTable ns).isNone then .skip "cyclic"
-      else if (minVersion (classesOf jar)).isNone then .err "e"
-      else match jarName jar ns c with | some r => .ok (ofJStr r) | none => .err "diverge")
+    pure (if (minVersion (classesOf jar)).isNone then .err "e"
+      else match jarName jar ns c with | some r => .ok (ofJStr r) | none => .err "e")
   | "nest-name-map", [ns, c] => do
     let ns ← nestsFrom ns; let c ← toJStr? c
-    pure (match mapName ns c with | some r => .ok (ofJStr r) | none => .err "diverge")
+    pure (match mapName ns c with | some r => .ok (ofJStr r) | none => .err "e")
   | "nest-name-map-unguarded", [ns, c] => do
     let ns ← nestsFrom ns; let _ ← toJStr? c
-    pure (if (mapTable ns).isNone then .err "diverge" else .ok (tag "terminated"))
+    pure (if (mapTable ns).isNone then .err "e" else .ok (tag "terminated"))
   | "map-nests", [ns, m] => do
     let ns ← nestsFrom ns; let m ← mappingsFrom m
     pure (match mapNests ns m with | some r => .ok (nestsTo r) | none => .err "e")
@@ -226,6 +242,9 @@ def handleC14 (op : String) (args : List Sexp) : Option Ans :=
   | "oracle-remap-names", [ns, jar] => do
     let ns ← nestsFrom ns; let jar ← jarFrom jar
     pure (verdict (remapNamesHolds jar ns))
+  | "oracle-cyclic-err", [ns] => do
+    let ns ← nestsFrom ns
+    pure (verdict (cyclicErrHolds ns))
   | "oracle-read-spec", [t] => do
     let t ← toJStr? t
     pure (verdict (readSpecHolds t))
